@@ -32,14 +32,22 @@ def u_lean(U):
     U.direct('cover', 'lean-file-has-theorems', 'ok' if names else 'vacuous', '', path, backend='lean4+mathlib')
 
 
-@unit('lemmas.spotcheck', props=('C01', 'C02', 'C03', 'C04', 'C19'))
+@unit('lemmas.spotcheck', props=tuple(f'C{k:02d}' for k in range(1, 21)))
 def u_spot(U):
-    """Every axiom of ttvc/theory.py evaluated in the standard model (real NumPy on random small instances).  A falsified
-    axiom makes every proof that uses it worthless, so it is reported as a failed vacuity guard (the check becomes undecided)."""
-    from ttvc import vec  # noqa: F401
-    from lemmas import spotcheck
-    spotcheck.load_extensions()
-    res = spotcheck.run(seed=0)
+    """Every axiom of ttvc/theory.py and of the extension modules ttvc/mx_*.py evaluated in the standard model (real NumPy on
+    random small instances).  A falsified axiom makes every proof that uses it worthless, so it is reported as a failed vacuity
+    guard (the check becomes undecided).  Runs as a child interpreter so that it can use a process pool."""
+    import json, os, subprocess, sys
+    root = os.path.dirname(os.path.dirname(os.path.abspath(__file__)))
+    env = dict(os.environ, PYTHONPATH=os.pathsep.join([root, os.path.join(root, '.deps')]))
+    out = subprocess.run([sys.executable, '-B', os.path.join(root, 'lemmas', 'spotcheck.py'), '--json'], capture_output=True, text=True, env=env,
+                         timeout=600)
+    try:
+        res = json.loads(out.stdout.strip().splitlines()[-1])
+    except Exception:
+        U.direct('cover', 'axioms-hold-in-the-standard-model', 'vacuous', 'spot check did not run: ' + (out.stderr or out.stdout)[-400:],
+                 'lemmas/spotcheck.py', backend='numpy-spotcheck')
+        return
     bad = [r for r in res if r[1] == 'FALSIFIED']
     unex = [r for r in res if r[1] in ('unexercised', 'skipped')]
     U.direct('cover', 'axioms-hold-in-the-standard-model', 'ok' if not bad else 'vacuous',
